@@ -346,6 +346,48 @@ def run_forked(args, trace):
     return pid, st
 
 
+def repository_tests(run, traces):
+    """The repository's own tests/test_command_line.py run with the hooks on.  Every tool run they make logs the
+    pipeline it was asked for (`config` event: pre-/post-processor classes, computer or raw column); the stage events
+    of every utterance of that run (from whichever process) must then follow Pipeline for that configuration."""
+    import repo_tests
+    rc, tail, events = repo_tests.record(("tests/test_command_line.py",))
+    if rc not in (0, 1) or not events:
+        raise common.MachineryError("could not trace tests/test_command_line.py (rc=%s): %s" % (rc, tail))
+    runs, cur = [], None
+    for e in events:  # file order is the global order: every event is one atomic append
+        if e["event"] == "config":
+            cur = {"tool": e["tool"], "pre": [p.replace("PyTorch", "") for p in e["pre"]], "post": e["post"],
+                   "computer": e["computer"], "utts": {}}
+            runs.append(cur)
+            continue
+        if cur is None or "utt" not in e or e["event"] in ("save_begin", "manifest_print", "crash"):
+            continue
+        name = e["event"]
+        if name in ("pre", "post"):
+            name = name + ":" + e["op"].replace("PyTorch", "")
+        if name == "save_end":
+            name = "write"
+        u = cur["utts"].setdefault(e["utt"], {"events": [], "frames": None})
+        u["events"].append(name)
+        if e["event"] == "compute":
+            u["frames"] = e.get("frames")
+    tid = len(traces)
+    added = 0
+    for r in runs:
+        if not r["utts"]:
+            continue
+        tid += 1
+        added += 1
+        utts = [{"id": uid, "excluded": False, "empty": u["frames"] == 0, "events": u["events"]} for uid, u in sorted(r["utts"].items())]
+        traces.append({"tid": tid, "tool": r["tool"], "pre": r["pre"], "post": r["post"], "computer": r["computer"],
+                       "empty_skips_post": r["tool"] == "kaldi", "write_event": True, "output": [u["id"] for u in utts],
+                       "utts": utts, "config": {"source": "tests/test_command_line.py"}})
+    run.extra["repository_test_tool_runs"] = added
+    if added == 0:
+        raise common.MachineryError("no tool run of tests/test_command_line.py was traced")
+
+
 def run(tier, seed):
     run = common.Run("C09", tier, seed)
     rng = random.Random(seed)
@@ -367,6 +409,7 @@ def run(tier, seed):
         # and --seed=0, which is as fixed as any other seed
         for k, comp in enumerate(COMPUTERS2):
             torch_runs(run, tier, rng, root, traces, computer=comp, seed=0, combos=[(2, 0, "inline"), (0, 1, "yaml")], tag=str(k))
+        repository_tests(run, traces)
     finally:
         shutil.rmtree(root, ignore_errors=True)
     rejected, tr = common.validate_traces_parallel("TracePipeline", "TracePipeline.cfg", traces, shards=4)
